@@ -107,11 +107,30 @@ def run(ck):
         Y = torch.tensor(rr.standard_normal((n, nout)), dtype=dtype)
         Xv = torch.tensor(rr.standard_normal((15, d)), dtype=dtype)
         Yv = torch.tensor(rr.standard_normal((15, nout)), dtype=dtype)
+        # categorical columns handled by the fast path, with category EMBEDDINGS that are not the identity (ordinal / learned codes): the system that is solved is
+        # built from the same kernel the stored state evaluates
+        cat_regime = (i % 5 in (0, 3)) and (i % 4 == 0)
+        cat_kw = {}
+        if cat_regime:
+            levels_c = [3, 2]; nnum_c = 2; d = nnum_c + sum(levels_c)
+            def catrows(k):
+                R = np.zeros((k, d)); R[:, :nnum_c] = rr.standard_normal((k, nnum_c)); o_ = nnum_c
+                for lv in levels_c:
+                    R[np.arange(k), o_ + rr.integers(0, lv, size=k)] = 1.0; o_ += lv
+                return R
+            X = torch.tensor(catrows(n), dtype=dtype); Xv = torch.tensor(catrows(15), dtype=dtype)
+            o_ = nnum_c; cidx = []
+            for lv in levels_c:
+                cidx.append(torch.arange(o_, o_ + lv)); o_ += lv
+            cat_kw = dict(categorical_info=dict(numerical_indices=torch.arange(nnum_c), categorical_indices=cidx,
+                                                categorical_vectors=[torch.tensor(rr.standard_normal((lv, lv)) + np.eye(lv), dtype=dtype) for lv in levels_c]),
+                          fast_categorical=True)
+            ck.count('categorical fast path with non-identity category embeddings')
         desc = dict(i=i, kernel=kern, solver=solver, dtype=str(dtype), diag=diag, bw=bwmode, iters=iters, early=early, rb=rb, lam=lam, n=n, d=d,
-                    nout=nout, exponent=exponent, agop_best=bool((i // 5) % 2), timed_out=timed_out, seed=ck.seed)
+                    nout=nout, exponent=exponent, agop_best=bool((i // 5) % 2), timed_out=timed_out, categorical=cat_regime, seed=ck.seed)
         xr.seed_all(2200 + i + ck.seed)
         m = xr.RealRFM(kernel=kern, iters=iters, bandwidth=2.0, exponent=exponent, bandwidth_mode=bwmode, device='cpu', diag=diag,
-                       verbose=False, tuning_metric='mse', **(dict(time_limit_s=0.0) if timed_out else {}), **extra)
+                       verbose=False, tuning_metric='mse', **(dict(time_limit_s=0.0) if timed_out else {}), **cat_kw, **extra)
         log = []
         try:
             with solver_log(log), xr.quiet():
@@ -145,7 +164,7 @@ def run(ck):
         elif not (r2 <= tol):
             ck.violation(f'predict(centers) != Y - lambda alpha: {r2:.3g} > {tol:.3g} on {desc}', dict(desc, residual=r2, tol=tol), key=key)
         # independent Gram matrix from the documented closed form (small n)
-        if n <= 10 and r1 <= tol:
+        if n <= 10 and r1 <= tol and not cat_regime:
             kn = orc.kname_of(m.kernel_obj); par = orc.kernel_params(m.kernel_obj)
             mat = orc.mpl(m.sqrtM if m.use_sqrtM else m.M)
             C = [[mp.mpf(float(v)) for v in row] for row in m.centers.double().tolist()]
